@@ -1,4 +1,4 @@
-\* simulation: 4 producers, producer 3 Byzantine (equivocates, Confirms filled the honest way per branch), 3 correct nodes
+\* simulation: 4 producers, producer 3 Byzantine (equivocates, Confirms filled the honest way per branch), 3 correct nodes, up to 16 blocks, 2 restarts; all properties
 SPECIFICATION Spec
 CONSTANTS
   N = 4
@@ -6,9 +6,10 @@ CONSTANTS
   Nodes <- Nodes012
   Blk0 <- NoBlocks
   MaxBlocks = 16
-  MaxRestarts = 1
+  MaxRestarts = 2
   ByzMode = "branch"
   ByzRanges <- R123
-  Fixes <- NoFix
-INVARIANTS TypeOK HonestConfirms
+  Fixes <- AllFixes
+INVARIANTS TypeOK LibOnMain ConfirmsOnMain Agreement HonestConfirms
+PROPERTIES LibMonotone Final NoForkBelowLib LibQuorum RestoreEqualsRecompute
 CHECK_DEADLOCK FALSE
